@@ -106,7 +106,7 @@ pub fn judge(out: &mut Out, toks: &[Tok], src: &str, want: Want, prop_rule_prefi
     // an ill-formed source is also rejected at the string level, whatever was evaluated just before — in particular a
     // well-formed source that differs from it only in blanks (`12` before `1 2`, `a == b` before `a = = b`)
     if let (Class::Ill(reason), true) = (&class, want != Want::WellFormed) {
-        if toks.len() <= 4 || out.evaluations % 4 == 0 {
+        if toks.len() <= 4 || crate::rng::fnv(src.as_bytes()) % 4 == 0 {
             let stripped: String = src.chars().filter(|c| !c.is_whitespace()).collect();
             let doubled = src.replace(' ', "  ");
             for (k, sib) in [stripped, doubled].iter().enumerate() {
